@@ -256,7 +256,9 @@ func (f *filter) forEachAvailableMigrationJobs(listOpts *client.ListOptions, han
 		}
 		found := false
 		for _, v := range expectedPhaseContexts {
-			if phase == v.phase && (!v.checkArbitration || f.checkJobPassedArbitration(job.UID)) {
+			// a job has passed arbitration if this arbitrator remembers it (covers informer-cache lag) or if the stored
+			// object says so (covers an update whose answer was lost, and jobs passed before a restart)
+			if phase == v.phase && (!v.checkArbitration || f.checkJobPassedArbitration(job.UID) || job.Annotations[AnnotationPassedArbitration] == "true") {
 				found = true
 				break
 			}
